@@ -1501,6 +1501,8 @@ impl SctpInner {
         self.verification_tag.store(local_tag, Ordering::SeqCst);
 
         let initial_tsn = random_u32();
+        #[cfg(feature = "verif")]
+        let initial_tsn = crate::verif::sctp_initial_tsn().unwrap_or(initial_tsn);
         self.next_tsn.store(initial_tsn, Ordering::SeqCst);
 
         let mut init_params = BytesMut::new();
@@ -1699,6 +1701,8 @@ impl SctpInner {
         init_ack_params.put_u16(10);
         // Initial TSN
         let initial_tsn = random_u32();
+        #[cfg(feature = "verif")]
+        let initial_tsn = crate::verif::sctp_initial_tsn().unwrap_or(initial_tsn);
         self.next_tsn.store(initial_tsn, Ordering::SeqCst);
         init_ack_params.put_u32(initial_tsn);
 
